@@ -31,9 +31,43 @@ def compress(payload, level, fmt):
     return c.compress(payload) + c.flush()
 
 
+class Chain(object):
+    """The abstract inflater of a mode.  For gzip it is a CHAIN of zlib objects: a gzip file may consist of several
+    members (RFC 1952 2.2), whose contents are concatenated; what follows the last member and does not begin with the
+    gzip magic is ignored.  eof: the member being read has ended and no further member has begun."""
+    def __init__(self, mode):
+        self.mode = mode
+        self.d = zlib.decompressobj(WBITS[mode])
+        self.held = b''
+
+    def decompress(self, data):
+        if self.mode != 'gzip':
+            return self.d.decompress(data)
+        out = b''
+        data = self.held + data
+        self.held = b''
+        while data:
+            if self.d.eof:
+                if data[:2] == b'\x1f\x8b':
+                    self.d = zlib.decompressobj(WBITS[self.mode])
+                elif data == b'\x1f':
+                    self.held = data          # perhaps the first octet of the next member
+                    break
+                else:
+                    break                     # trailing garbage: ignored
+            out += self.d.decompress(data)
+            data = self.d.unused_data
+        return out
+
+    @property
+    def eof(self):
+        return self.d.eof
+
+
 def probe(body, mode):
-    """What a zlib.decompressobj(mode) does with `body` fed byte by byte: (emit[0..n], E, F)."""
-    d = zlib.decompressobj(WBITS[mode])
+    """What the abstract inflater of `mode` does with `body` fed byte by byte: (emit[0..n], E, F).  F: where the
+    LAST member ends (eof is transient between members)."""
+    d = Chain(mode)
     n = 0
     emit = [0]
     E = F = 0
@@ -43,8 +77,8 @@ def probe(body, mode):
                 n += len(d.decompress(body[k:k + 1]))
             except zlib.error:
                 E = k + 1
-            if not E and d.eof and not F:
-                F = k + 1
+            if not E and d.eof and not d.held:
+                F = k + 1 if (not F or mode == 'gzip' and n > emit[F]) else F
         emit.append(n)
     return emit, E, F
 
@@ -57,7 +91,7 @@ def profile(body, own, payload_len, cls):
 
 
 def _whole(body, mode):
-    d = zlib.decompressobj(WBITS[mode])
+    d = Chain(mode)
     try:
         out = d.decompress(body)
     except zlib.error:
@@ -149,11 +183,13 @@ def make_bodies(tier, max_full):
             c = zlib.compressobj(6, zlib.DEFLATED, wb)
             data = c.compress(p) + c.flush()
             add('zlib-w%d/%s' % (wb, p.hex()), 'deflate', 'zlib', data, p, 'intact')
-    # several gzip members one after the other: the decoder (like zlib's one-shot call) stops after the first one -
-    # for every split the same
+    # several gzip members one after the other (RFC 1952 2.2): the content is the concatenation of theirs - for every
+    # split the same; what follows the last member without the gzip magic is ignored
     m3 = compress(b'one', 6, 'gzip') + compress(b'two', 6, 'gzip') + compress(b'three', 6, 'gzip')
-    add('gzip-3members', 'gzip', 'gzip', m3, b'one', 'members')
-    add('gzip-2members', 'gzip', 'gzip', compress(b'a', 0, 'gzip') + compress(b'b', 0, 'gzip'), b'a', 'members')
+    add('gzip-3members', 'gzip', 'gzip', m3, b'onetwothree', 'members')
+    add('gzip-2members', 'gzip', 'gzip', compress(b'a', 0, 'gzip') + compress(b'b', 0, 'gzip'), b'ab', 'members')
+    add('gzip-2members-garbage', 'gzip', 'gzip', compress(b'a', 0, 'gzip') + compress(b'b', 6, 'gzip') + b'\x00garbage', b'ab', 'members')
+    add('gzip-member-then-1f', 'gzip', 'gzip', compress(b'ab', 6, 'gzip') + b'\x1f', b'ab', 'members')
     for z in ZLIBISH:
         add('zlibish/%s' % z.hex(), 'deflate', 'raw', z, b'A', 'zlibish')
         for t in range(1, len(z)):
